@@ -199,7 +199,7 @@ class Check:
             fh.write(cfg_text)
         if workers is None:
             workers = NCPU
-        args = ["java", "-Xmx" + heap, "-Xss64m", "-XX:+UseParallelGC", "-cp", CLASSPATH]
+        args = ["java", "-Xmx" + heap, "-Xss64m", "-XX:+UseParallelGC", "-Djava.io.tmpdir=" + run, "-cp", CLASSPATH]
         if dfs:
             args.append("-Dtlc2.tool.queue.IStateQueue=StateDeque")
         args += ["tlc2.TLC", "-config", cfgname, "-workers", str(workers), "-metadir",
